@@ -50,6 +50,37 @@ func replay(path string) {
 	}
 	out := &sink{}
 	defer out.flush()
+	if ml, ok := e["msgs"].([]any); ok && str("seed") != "" {
+		// an event of the retained-outputs scenario: the behaviour depends on the whole call sequence, re-run it
+		var id uint32
+		fmt.Sscanf(str("id"), "%08x", &id)
+		msgs := make([][]byte, len(ml))
+		for i := range ml {
+			x, _ := ml[i].(string)
+			msgs[i] = vt.Unhex(x)
+		}
+		variant := str("keyVariant")
+		if variant == "TINK" {
+			fmt.Sscanf(str("keyID"), "%08x", &id)
+		}
+		pk := newPubKey(&sink{}, getSet(str("set")), hexf("seed"), variant, id)
+		if pk == nil {
+			vt.Fatal("replay: cannot rebuild the key")
+		}
+		pk.out = out
+		if variant == "NO_PREFIX" {
+			pk.retainedMsgs(msgs, nil, nil)
+			return
+		}
+		ph, _ := pk.handle.Public()
+		pre, err1 := signprehash.NewPrehash(ph)
+		ps, err2 := signprehash.NewPrehashSigner(pk.handle)
+		if err1 != nil || err2 != nil {
+			vt.Fatal("replay: prehash primitives: %v %v", err1, err2)
+		}
+		pk.retainedMsgs(msgs, pre, ps)
+		return
+	}
 	switch str("ev") {
 	case "run":
 		for _, u := range unaryTable(vt.Rng(10), true) {
